@@ -1,6 +1,8 @@
 import FimVerif.Proofs.Lemmas.C08Frame
 import FimVerif.Proofs.Lemmas.C08Sep
 import FimVerif.Proofs.Lemmas.C08Api
+import FimVerif.Proofs.Lemmas.C08Handle
+import FimVerif.Proofs.Lemmas.C08Spec
 /-!
 # C08 — removal and disconnection delete exactly the owned structure and nothing else
 
@@ -171,5 +173,84 @@ theorem removeComponentApi_exact (g : G) (c : Nat) (h : SepCompApi g c = true) :
 example : SepNodeApi exG 10 = true := by decide
 example : nodeApiDel exG 10 = [21, 30, 11, 12, 13, 15, 14, 30, 10] := by decide
 example : SepCompApi exG 11 = true := by decide
+
+/-! ## Handles
+
+`h` is the interface list cached in the handle the call goes through; `freshIfs g s` is what a freshly looked-up
+handle of `s` lists. The shape hypotheses say that the ServicePort removed is a plain port (no sub-interfaces) and
+that the service itself is not among what is deleted. -/
+
+/-- **handle_fresh (`disconnect_interface`)** -/
+theorem handle_fresh_disconnect (g : G) (h : List Nat) (s i : Nat) (g' : G) (h' : List Nat)
+    (hrun : disconnect g h i = .ok (g', h'))
+    (hshape : ∀ p ∈ spPeers g i, g.nbrs p .connects .cp = [] ∧ (cpDel g p true).contains s = false)
+    (hh : ∀ y, y ∈ h ↔ y ∈ freshIfs g s) :
+    ∀ y, y ∈ h' ↔ y ∈ freshIfs g' s := disconnect_fresh g h s i g' h' hrun hshape hh
+
+/-- **handle_fresh (`remove_child_interface`)** — holds since the repair 5785808 (the list used to keep the removed child) -/
+theorem handle_fresh_removeChild (g : G) (h : List Nat) (p c : Nat) (g' : G) (h' : List Nat)
+    (hrun : removeChild g h p c = .ok (g', h'))
+    (hp : (cpDel g c false).contains p = false)
+    (hh : ∀ y, y ∈ h ↔ y ∈ freshIfs g p) :
+    ∀ y, y ∈ h' ↔ y ∈ freshIfs g' p := removeChild_fresh g h p c g' h' hrun hp hh
+
+/-- **handle_fresh (`unpeer`)**, both handles — holds since the repairs 59b2237 / 76b13f8 -/
+theorem handle_fresh_unpeer (g : G) (ha hb : List Nat) (a b i p : Nat) (g' : G) (ha' hb' : List Nat)
+    (hfind : findPeering g ha hb = some (i, p))
+    (hrun : unpeer g ha hb = .ok (g', ha', hb'))
+    (hi : cpFamily g i true = [i]) (hpf : cpFamily (g.minus (cpDel g i true)) p true = [p])
+    (hsa : (cpDel g i true).contains a = false) (hsb : (cpDel g i true).contains b = false)
+    (hsa2 : (cpDel (g.minus (cpDel g i true)) p true).contains a = false)
+    (hsb2 : (cpDel (g.minus (cpDel g i true)) p true).contains b = false)
+    (hpa : p ∉ ha) (hib : i ∉ hb)
+    (hha : ∀ y, y ∈ ha ↔ y ∈ freshIfs g a) (hhb : ∀ y, y ∈ hb ↔ y ∈ freshIfs g b) :
+    (∀ y, y ∈ ha' ↔ y ∈ freshIfs g' a) ∧ (∀ y, y ∈ hb' ↔ y ∈ freshIfs g' b) :=
+  unpeer_fresh g ha hb a b i p g' ha' hb' hfind hrun hi hpf hsa hsb hsa2 hsb2 hpa hib hha hhb
+
+/-- two peered services `1`, `2` with ports `3`, `4` joined by link `5` -/
+def exPeer : G :=
+  { nodes := [⟨1, .ns, 0, "a"⟩, ⟨2, .ns, 0, "b"⟩, ⟨3, .cp, 1, "a-b"⟩, ⟨4, .cp, 1, "b-a"⟩, ⟨5, .link, 0, "l"⟩],
+    edges := [⟨1, 3, .connects, ""⟩, ⟨2, 4, .connects, ""⟩, ⟨5, 3, .connects, ""⟩, ⟨5, 4, .connects, ""⟩] }
+
+example : findPeering exPeer [3] [4] = some (3, 4) := by decide
+example : (unpeer exPeer [3] [4]).toOption.map (fun r => (r.1.nodes.map (·.id), r.2)) = some ([1, 2], [], []) := by decide
+example : ∀ p ∈ spPeers exG 14, exG.nbrs p .connects .cp = [] ∧ (cpDel exG p true).contains 20 = false := by decide
+
+/-! ## The declarative `owned` set, and where the code falls short of it (known finding)
+
+Full statement (`remove_exact`): for every reachable topology and every operation addressing element `x`,
+the result is `g.minus (owned g x)`.  The closed forms above are what the code deletes; they coincide with `owned`
+whenever every ServicePort peering an owned interface is reached by the disconnect loop, i.e. the interface is a
+first-level interface of the removed node / component.  They differ (a ServicePort survives with no peer) when a
+*sub-interface* is connected, when a service / link / child interface is removed directly:
+`C08:<op>:orphan-service-port` in known_findings.  The equality closed form = `owned` under the containment
+invariant is evaluated by the oracle on every generated case (brute force), and decided on instances here; it is
+not proved in general (`remove_exact_partial` below is the instance-level statement). -/
+
+/-- on the example topology the code deletes exactly `owned` (node `10`, first-level interface `14` connected) -/
+theorem remove_exact_partial :
+    removeNodeApi exG 10 = .ok (exG.minus (owned exG 10)) ∧ sameSet (nodeApiDel exG 10) (owned exG 10) = true := by
+  constructor
+  · rfl
+  · decide
+
+/-- a node `10` whose *sub-interface* `15` is connected to service `20` (port `21`, link `30`) -/
+def exOrphan : G :=
+  { nodes := [⟨10, .node, 0, "n"⟩, ⟨11, .comp, 0, "c"⟩, ⟨12, .ns, 0, "ovs"⟩, ⟨13, .cp, 4, "p1"⟩, ⟨15, .cp, 0, "ch"⟩,
+              ⟨20, .ns, 0, "s"⟩, ⟨21, .cp, 1, "sp"⟩, ⟨30, .link, 0, "l"⟩],
+    edges := [⟨10, 11, .has, ""⟩, ⟨11, 12, .has, ""⟩, ⟨12, 13, .connects, ""⟩, ⟨13, 15, .connects, ""⟩,
+              ⟨20, 21, .connects, ""⟩, ⟨30, 15, .connects, ""⟩, ⟨30, 21, .connects, ""⟩] }
+
+/-- **Counterexample to the full statement** (`Topology.remove_node`): the ServicePort `21` created for the connected
+sub-interface belongs to `owned` but survives. Replayed on the implementation by corpus/C08/known_orphan_port_subinterface.json. -/
+theorem remove_exact_counterexample :
+    (owned exOrphan 10).contains 21 = true ∧
+    (removeNodeApi exOrphan 10).toOption.map (fun g => g.has 21) = some true := by
+  constructor <;> decide
+
+/-- the same for `Topology.remove_link` of a link created by `connect_interface` (link `30` of `exG`, port `21`) -/
+theorem removeLink_orphan_counterexample :
+    (owned exG 30).contains 21 = true ∧ (removeLinkG exG 30).toOption.map (fun g => g.has 21) = some true := by
+  constructor <;> decide
 
 end FimVerif.C08
